@@ -40,7 +40,8 @@ func main() {
 			_ = os.RemoveAll(binBase)
 		}
 	}()
-	sup.Main("syntax", &sup.Engine{Gen: syntaxGen, Work: syntaxWork, Recycle: 20000, Timeout: 30 * time.Second})
+	sup.Main("syntax", &sup.Engine{Gen: syntaxGen, Work: syntaxWork, Recycle: 20000, Timeout: 30 * time.Second,
+		Poison: func(res string) bool { return strings.Contains(res, " hang") }})
 }
 
 var hx, unhx, withWatchdog, atoi = sup.Hx, sup.Unhx, sup.WithWatchdog, sup.Atoi
